@@ -177,3 +177,36 @@ Definition extents_no_wrap (s : shdr) : bool :=
   (sh_offset s + sh_size s <? M64) && (sh_addr s + sh_size s <? M64).
 Definition sis_domain (s : shdr) (g : phdr) : bool :=
   headers_u64 s g && extents_no_wrap s && negb (tbss_special s g).
+
+(* ---- executable reading of the contents clause, used by the correspondence driver.
+        The zlib facts come with the input: [zs] is a complete zlib stream and [zp] its
+        payload (None: no such fact, the case is outside the property).  Result:
+        (compressed?, logical size, logical alignment, data), data = None when the property
+        says the section is rejected; the whole result None when the property does not speak
+        (extent outside the file, SHT_NOBITS flagged compressed, unknown ch_type, bytes after
+        the header that are not the given stream). ---- *)
+Definition decode_chdr (le is64 : bool) (bs : list Z) : option (Z * Z * Z * list Z) :=
+  match decode_layout (spec_Elf_Chdr le is64) bs with
+  | Some (r, rest) => Some (rec_z r "ch_type", rec_z r "ch_size", rec_z r "ch_addralign", rest)
+  | None => None
+  end.
+
+Definition section_view (img : list Z) (le is64 : bool) (sht flags off size align : Z)
+           (zs : list Z) (zp : option (list Z)) : option (bool * Z * Z * option (list Z)) :=
+  if Z.land flags SHF_COMPRESSED =? 0 then
+    if sht =? SHT_NOBITS then Some (false, size, align, Some (nobits_data size))
+    else if extent_in_file img off size then Some (false, size, align, Some (extent img off size))
+    else None
+  else if sht =? SHT_NOBITS then None
+  else if extent_in_file img off size then
+    match decode_chdr le is64 (extent img off size) with
+    | Some (ty, sz, al, rest) =>
+        if (ty =? ELFCOMPRESS_ZLIB) && bytes_eqb rest zs then
+          match zp with
+          | Some p => Some (true, sz, al, if sz =? zlen p then Some p else None)
+          | None => None
+          end
+        else None
+    | None => None
+    end
+  else None.
